@@ -179,6 +179,9 @@ PROPS["C18"] = dict(
 )
 
 PROPS["C05"] = dict(
+    registered=True,
+    level_text='Kernel-checked for tables with equal column lists (any key position, composite/absent key, any number of branches): the literal per-column decision chain of tryResolve equals the three-way rule (C05_resolveCell_spec), the whole modelled pipeline reports exactly the specified conflicts and yields exactly the specified rows (C05_model_meets_spec_partial), and the rule satisfies merge(base;X,base)=X, merge(base;X,X)=X, branch-order independence, conflicts for differing edits and remove-vs-modify, disjoint edits combine. Correspondence: merge.Merger (conflict records + SortedRows) == model and satisfies the spec on generated tuples with N=2..3.',
+    level_note=LEVEL_NOTE + 'PARTIAL: column adds/removes/reorders/renames per branch (CompareColumns, RearrangeRow) are not modelled; such inputs are run for crash-freedom only. Two known findings (untouched rows in base layout when the key is not first; keyless merges) are reported as KNOWN-FINDING. Row hashes are replaced by row equality.',
     lean_modules=["WrglModel.Props.C05"],
     quick_n=300, thorough_n=4000,
     rule="(base, branch1..branchN) tuples, N in 2..3, 3..27 rows (1 in 12: 250..550 rows, several blocks), 2..4 columns, key first / key elsewhere / composite / absent; "
@@ -189,6 +192,9 @@ PROPS["C05"] = dict(
 )
 
 PROPS["C08"] = dict(
+    registered=True,
+    level_text="Kernel-checked for every acyclic history, every want, every set of common tips and every depth: the walk of enqueueWants lists exactly the unfolding tree below the want avoiding common tips, hence is closed, sends nothing unreachable, selects tables exactly within the depth, is parent-first (first occurrence of a commit preceded by its non-common parents) and terminates; the polynomial-time clause is proved FALSE of the code (2^k entries on k diamonds; known finding). Correspondence: ClosedSetsFinder.Process/CommitsToSend/TablesToSend == model (as sets) on random DAGs with multi-round haves, unknown hashes, unreachable wants, depth; finderVerdict evaluated by Lean on the implementation's actual list.",
+    level_note=LEVEL_NOTE + "PARTIAL: the theorems are about one want's walk (first want of a round); the multi-want / multi-round bookkeeping of Process (random map order, alreadySeenCommits, pending wants) and ensureWantsAreReachable/findCommons are modelled and compared with the implementation but not proved.",
     lean_modules=["WrglModel.Props.C08"],
     quick_n=600, thorough_n=10000,
     rule="random DAGs (1..10 commits quick, ..14 thorough; merges, several roots, 5 timestamp modes, shared tables, shallow commits) and diamond chains of 10..12 diamonds; "
@@ -206,4 +212,15 @@ PROPS["C07"] = dict(
          "real ObjectSender -> packfile bytes -> PackfileReader -> ObjectReceiver between two stores; non-trivial = stray blocks at the destination or a small size limit; distinct = distinct (op, input)",
     modelled="pkg/api/utils/object_sender.go (NewObjectSender, enqueueNextCommit, enqueueTable, WriteObjects' size cut), object_receiver.go (saveBlock/saveTable/saveCommit acceptance conditions, Receive)",
     assumptions=["object contents are abstract in the model (identities and sizes); byte identity, re-indexing and profiles are compared on the implementation", "s2 round-trips block bytes"],
+)
+
+PROPS["C12"] = dict(
+    lean_modules=["WrglModel.Props.C12"],
+    quick_n=400, thorough_n=6000,
+    rule="repositories built from a seed: 2..4 real tables (3..300 rows, variants sharing blocks), DAGs of 1..8 commits with arbitrary timestamps, 0..3 refs of every kind "
+         "(heads, tags, remotes, txs, nested names), some deleted again, shallow commits (table object absent, with or without its index/profile), a stray missing block; "
+         "prune.Prune run twice on a mock object store + SQLite ref store; key sets before/after and full read-back of every surviving table; "
+         "non-trivial = at least one commit removed and one kept; distinct = distinct (op, input)",
+    modelled="pkg/prune/prune.go (findCommitsToRemove, pruneTables, Prune) over CommitsQueue",
+    assumptions=["objects.GetAll*Keys return the sorted key lists of the store", "a prune interrupted half-way is C13's subject"],
 )
